@@ -322,6 +322,10 @@ pub fn gen_limbs(seed: u64, thorough: bool, out: &mut Out) {
         let valid = lr[2] == 0 || (lr[2] == 1 && lr[1] == 0 && lr[0] < 12451);
         out.case(format!("fpl.bin {} {} {}", op, la(*la_), la(*lb_)), ls(lr), if valid { Ok(()) } else { Err("result limbs are not below the modulus".into()) });
       }
+      // Ord (through the canonical integers) and == (on the internal limbs)
+      let ord = match fa.cmp(fb) { std::cmp::Ordering::Less => "lt", std::cmp::Ordering::Equal => "eq", std::cmp::Ordering::Greater => "gt" };
+      let consistent = (ord == "eq") == (fa == fb) && (fa == fb) == (la_ == lb_) && fb.cmp(fa) == fa.cmp(fb).reverse();
+      out.case(format!("fpl.cmp {} {}", la(*la_), la(*lb_)), format!("{} {}", ord, if fa == fb { "same" } else { "differ" }), if consistent { Ok(()) } else { Err("Ord and == disagree with each other or with the limbs".into()) });
     }
   }
   for (l, fa) in &elems {
